@@ -533,6 +533,30 @@ theorem inv_initBlocksPartitioning (st : St) {st' : St}
         exact ⟨hi.quiet ⟨rfl, rfl, rfl, rfl, rfl, rfl, .inl rfl⟩, ⟨rfl, rfl, rfl, rfl, rfl, rfl, .inl rfl⟩⟩
     · simp at h; rw [← h]; exact ⟨hi, Quiet.refl _⟩
 
+theorem inv_openWriter (pl : Plan) (st : St) (tl : Nat) (cenc : Cenc) {st' : St}
+    (hi : Inv st) (hw : st.writer = none) (hf : st.fdtId ≠ none)
+    (h : openWriter pl st tl cenc = .ok st') : Inv st' := by
+  have hps : pstateOf st.out = some .idle := by have := hi.ps; simpa [hw, absW] using this
+  unfold openWriter at h
+  dsimp only at h
+  split at h
+  · simp at h
+  · rename_i hbw
+    have hbw0 : st.bw = none := by
+      cases hb : st.bw with
+      | none => rfl
+      | some x => simp [hb] at hbw
+    have hoff : st.blocksOffset = 0 := hi.bwOff hbw0
+    split at h
+    · simp at h; subst h
+      refine ⟨by simp, ?_, by simp, ?_, by simpa using hf⟩
+      · simp [pstateOf_cons, evOf, absW, WriterProto.step, hps]
+      · intro _; simpa using hoff
+    · simp at h; subst h
+      refine ⟨by simp, ?_, by simp, ?_, by simpa using hf⟩
+      · simp [pstateOf_cons, evOf, absW, WriterProto.step, hps]
+      · intro _; exact hoff
+
 theorem inv_initObjectWriter (P : Params) (st : St) {st' : St}
     (hi : Inv st) (h : initObjectWriter P st = .ok st') : Inv st' := by
   unfold initObjectWriter at h
@@ -545,42 +569,165 @@ theorem inv_initObjectWriter (P : Params) (st : St) {st' : St}
     split at h
     · rename_i fid cenc tl o hfid hcenc htl ho
       dsimp only at h
+      have hi2 : Inv { st with wIdx := st.nBuilder, nBuilder := st.nBuilder + 1,
+                               out := WCall.new st.meta (P.env.plan st.nBuilder).ans :: st.out } := by
+        refine ⟨hi.noIdle, ?_, hi.term, hi.bwOff, hi.fdt⟩
+        simp [pstateOf_cons, evOf, hw, absW, hps]
       split at h
-      · -- ObjectAlreadyReceived
-        simp at h; subst h
-        refine ⟨by simp [hw], ?_, by simp [hw], hi.bwOff, by simp [hw]⟩
-        simp [pstateOf_cons, evOf, hw, absW, hps]
-      · -- Abort
-        simp at h; subst h
-        refine ⟨by simp [hw], ?_, by simp [hw], hi.bwOff, by simp [hw]⟩
-        simp [pstateOf_cons, evOf, hw, absW, hps]
-      · -- StoreObject
+      · simp at h; subst h
+        exact hi2.quiet ⟨rfl, rfl, rfl, rfl, rfl, rfl, .inr (by simp)⟩
+      · simp at h; subst h
+        exact hi2.quiet ⟨rfl, rfl, rfl, rfl, rfl, rfl, .inr (by simp)⟩
+      · exact inv_openWriter _ _ _ _ hi2 hw (by simp [hfid]) h
+    · simp at h; rw [← h]; exact hi
+
+/-! ### push, attach_fdt, Drop -/
+
+theorem quiet_setCencFromPkt (st : St) (p : Pkt) : Quiet st (setCencFromPkt st p) := by
+  unfold setCencFromPkt; split
+  · exact Quiet.refl _
+  · exact ⟨rfl, rfl, rfl, rfl, rfl, rfl, .inl rfl⟩
+
+theorem quiet_setOtiFromPkt (st : St) (p : Pkt) : Quiet st (setOtiFromPkt st p) := by
+  unfold setOtiFromPkt; split
+  · exact Quiet.refl _
+  · split
+    · exact Quiet.refl _
+    · exact ⟨rfl, rfl, rfl, rfl, rfl, rfl, .inl rfl⟩
+
+theorem inv_cachePkt (st : St) (p : Pkt) (hi : Inv st) (hl : Live st) :
+    Inv (cachePkt st p).1 ∧ Live (cachePkt st p).1 := by
+  unfold cachePkt
+  split
+  · exact ⟨hi, hl⟩
+  · split
+    · exact ⟨hi, hl⟩
+    · refine ⟨⟨hi.noIdle, hi.ps, ?_, hi.bwOff, hi.fdt⟩, hl⟩
+      intro t
+      cases hl with
+      | inl hn => cases t <;> simp_all
+      | inr ho => cases t <;> simp_all
+
+theorem inv_push (P : Params) (st : St) (p : Pkt) {st' : St}
+    (hi : Inv st) (h : push P st p = .ok st') : Inv st' := by
+  unfold push at h
+  split at h
+  · simp at h; rw [← h]; exact hi
+  · split at h
+    · simp at h
+    · rename_i st1 h1
+      have i1 := (inv_initBlocksPartitioning _
+        (hi.quiet ((quiet_setCencFromPkt st p).trans (quiet_setOtiFromPkt _ p))) h1).1
+      split at h
+      · simp at h
+      · rename_i st2 h2
+        have i2 := inv_initObjectWriter _ _ i1 h2
         split at h
         · simp at h
-        · rename_i hbw
-          have hbw0 : st.bw = none := by
-            cases hb : st.bw with
-            | none => rfl
-            | some x =>
-              exfalso; apply hbw
-              split <;> simp [hb]
-          have hoff : st.blocksOffset = 0 := hi.bwOff hbw0
+        · rename_i st3 h3
+          have i3 := inv_pushFromCache _ _ i2 h3
           split at h
-          · -- open failed
-            simp at h; subst h
-            refine ⟨by simp, ?_, by simp, ?_, by simp [hfid]⟩
-            · simp_all [pstateOf_cons, evOf, absW, WriterProto.step]
-            · intro _
-              simp only [error_off]
-              split <;> exact hoff
-          · -- opened
-            rename_i hopen
-            simp at h; subst h
-            refine ⟨by simp, ?_, by simp, ?_, by simp [hfid]⟩
-            · simp_all [pstateOf_cons, evOf, absW, WriterProto.step]
-              split <;> split <;> simp_all [pstateOf_cons, evOf, absW, WriterProto.step]
-            · intro _
-              split <;> split <;> simp_all
-    · simp at h; rw [← h]; exact hi
+          · simp at h; rw [← h]; exact i3
+          · rename_i hr
+            have hl : Live st3 := i3.live_of_receiving (by simpa using hr)
+            split at h
+            · have hc := inv_cachePkt st3 p i3 hl
+              split at h
+              · rename_i heq
+                simp at h; rw [← h]
+                rw [heq] at hc; exact hc.1
+              · rename_i heq
+                simp at h; rw [← h]
+                rw [heq] at hc; exact inv_error _ hc.1 hc.2
+            · split at h
+              · simp at h
+              · rename_i heq
+                simp at h; rw [← h]
+                exact (inv_pushToBlock _ _ _ i3 hl heq).1
+              · rename_i heq
+                simp at h; rw [← h]
+                have := inv_pushToBlock _ _ _ i3 hl heq
+                exact inv_error _ this.1 (this.2 rfl)
+
+theorem inv_attachMeta (st : St) (fdtId : Nat) (f : FileEntry) {st' : St}
+    (hi : Inv st) (h : attachMeta st fdtId f = .ok st') : Inv st' := by
+  unfold attachMeta at h
+  dsimp only at h
+  split at h
+  · simp at h
+  · simp at h; subst h
+    exact ⟨hi.noIdle, hi.ps, hi.term, hi.bwOff, by simp⟩
+
+theorem inv_attachFdt (P : Params) (st : St) (fdtId : Nat) (file : Option FileEntry) {st' : St} {b : Bool}
+    (hi : Inv st) (h : attachFdt P st fdtId file = .ok (st', b)) : Inv st' := by
+  unfold attachFdt at h
+  split at h
+  · simp at h; rw [← h.1]; exact hi
+  · split at h
+    · simp at h; rw [← h.1]; exact hi
+    · split at h
+      · simp at h
+      · rename_i st1 h1
+        have i1 := inv_attachMeta _ _ _ hi h1
+        split at h
+        · simp at h
+        · rename_i st2 h2
+          have i2 := (inv_initBlocksPartitioning _ i1 h2).1
+          split at h
+          · simp at h
+          · rename_i st3 h3
+            have i3 := inv_initObjectWriter _ _ i2 h3
+            split at h
+            · simp at h
+            · rename_i st4 h4
+              have i4 := inv_pushFromCache _ _ i3 h4
+              split at h
+              · simp at h
+              · rename_i st5 ok h5
+                have i5 := inv_writeBlocks _ _ _ i4 h5
+                have i6 : Inv (if ok = true then st5 else error st5 false) := by
+                  cases ok
+                  · simpa using inv_error false i5.1 (Or.inr (i5.2.1 rfl))
+                  · simpa using i5.1
+                split at h
+                · simp at h
+                · rename_i st6 h6
+                  simp at h; rw [← h.1]
+                  exact inv_pushFromCache _ _ i6 h6
+
+/-- after Drop no writer is left open -/
+theorem inv_drop (st : St) (hi : Inv st) :
+    Inv (drop st) ∧ (drop st).writer ≠ some .opened := by
+  unfold drop
+  split
+  · rename_i hw
+    exact ⟨inv_error _ hi (Or.inr hw), by simp [hw]⟩
+  · rename_i hw
+    exact absurd hw hi.noIdle
+  · rename_i h1 h2
+    exact ⟨hi, fun hw => h1 hw⟩
+
+theorem inv_step (P : Params) (st : St) (op : Op) {st' : St}
+    (hi : Inv st) (h : step P st op = .ok st') : Inv st' := by
+  cases op with
+  | push p => exact inv_push _ _ _ hi h
+  | attach id f =>
+    simp only [step] at h
+    split at h
+    · simp at h
+    · rename_i heq
+      simp at h; rw [← h]
+      exact inv_attachFdt _ _ _ _ hi heq
+
+theorem inv_run (P : Params) (st : St) (ops : List Op) {st' : St}
+    (hi : Inv st) (h : run P st ops = .ok st') : Inv st' := by
+  induction ops generalizing st with
+  | nil => simp [run] at h; rw [← h]; exact hi
+  | cons op r ih =>
+    simp only [run] at h
+    split at h
+    · simp at h
+    · rename_i heq
+      exact ih _ (inv_step _ _ _ hi heq) h
 
 end Flute.ObjRecv
